@@ -373,9 +373,7 @@ def declare_c38(E):
 
 
 # ---------------------------------------------------------------------------------------------------------- C11
-def declare_c11(E):
-    """_send_user_message: a connection-layer message goes out only while 'clear to send' is set, checked and used under
-    clear_to_send_lock (the lock under which _send_kex_init / _negotiate_keys clear it)"""
+def _register_event_is_set():
     from pyvc import specfuns
     from pyvc.values import VBool
 
@@ -386,22 +384,44 @@ def declare_c11(E):
         if k not in I.st.ghost:
             I.st.ghost[k] = VBool(I.st.fresh_bool("event_set"))
         return I.st.ghost[k]
+
+
+def declare_c11(E):
+    """_send_user_message: a connection-layer message goes out only while 'clear to send' is set, checked and used under
+    clear_to_send_lock (the lock under which _send_kex_init / _negotiate_keys clear it)"""
+    _register_event_is_set()
     from contracts import message, specs
     message.declare(E)
     E.declare_class("paramiko.transport.Transport", {
-        "active": "bool", "clear_to_send": "opaque:Event", "clear_to_send_lock": "opaque:Lock", "clear_to_send_timeout": "float"})
-    E.declare_ghost(user_msgs_sent="int")
+        "active": "bool", "clear_to_send": "opaque:Event", "clear_to_send_lock": "opaque:Lock", "clear_to_send_timeout": "float",
+        "_held_user_messages": "opaque:Held"})
+    E.declare_ghost(user_msgs_sent="int", event_waits="int", held_back="int", on_own_thread="bool")
+    # which thread is running: the transport thread itself (a handler replying to peer traffic, the keepalive) or another
+    E.contract("Held.append", argnames=["self", "m"], returns="none", ghost={"held_back": "ghost('held_back') + 1"}, modifies=[])
     E.contract(T + "_send_message", params={"data": "obj:Message"}, returns="none",
                requires={"clear_to_send_is_set_and_its_lock_is_held": "held(self.clear_to_send_lock) and event_is_set(self.clear_to_send)"},
                ghost={"user_msgs_sent": "ghost('user_msgs_sent') + 1"},
-               raises={"EOFError": "True", "OSError": "True", "SSHException": "True"}, modifies=[])
+               raises={k: {"when": "True", "ghost": {"user_msgs_sent": "ghost('user_msgs_sent') + 1"}}
+                       for k in ("EOFError", "OSError", "SSHException")}, modifies=[])
     E.contract(T + "_send_user_message", params={"data": "obj:Message"},
                ensures={"sent_at_most_once": "ghost('user_msgs_sent') <= old(ghost('user_msgs_sent')) + 1",
-                        "lock_released": "not held(self.clear_to_send_lock)"},
-               loops={0: dict(inv=["not held(self.clear_to_send_lock)", "ghost('user_msgs_sent') == old(ghost('user_msgs_sent'))"],
-                              havoc_fields=["self.active"], vars={})},
+                        "lock_released": "not held(self.clear_to_send_lock)",
+                        # only the transport thread can complete a key exchange: a message it hands over itself (a handler
+                        # answering peer traffic that was in flight, the keepalive) never waits for 'clear to send' - it is
+                        # sent at once, held back for _parse_newkeys, or dropped because the connection is dead
+                        "the_transport_thread_never_waits_for_the_exchange":
+                            "implies(ghost('on_own_thread'), ghost('event_waits') == old(ghost('event_waits')))",
+                        "what_it_cannot_send_is_held_back_not_lost":
+                            "implies(ghost('on_own_thread') and self.active,"
+                            " ghost('user_msgs_sent') + ghost('held_back') == old(ghost('user_msgs_sent')) + old(ghost('held_back')) + 1)"},
+               loops={0: dict(inv=["not held(self.clear_to_send_lock)", "ghost('user_msgs_sent') == old(ghost('user_msgs_sent'))",
+                                   "ghost('held_back') == old(ghost('held_back'))",
+                                   "implies(ghost('on_own_thread'), ghost('event_waits') == old(ghost('event_waits')))"],
+                              havoc_fields=["self.active"], havoc_ghosts=["event_waits"], vars={})},
                returns="none",
-               raises={"SSHException": {"when": "True", "ensures": ["not held(self.clear_to_send_lock)"]},
+               # on the transport thread the only failure is that of the send itself - never the time-out of a wait
+               raises={"SSHException": {"when": "True", "ensures": ["not held(self.clear_to_send_lock)",
+                                        "implies(ghost('on_own_thread'), ghost('user_msgs_sent') == old(ghost('user_msgs_sent')) + 1)"]},
                        "EOFError": {"when": "True", "ensures": ["not held(self.clear_to_send_lock)"]},
                        "OSError": {"when": "True", "ensures": ["not held(self.clear_to_send_lock)"]}})
 
@@ -416,8 +436,10 @@ def newkeys_variant(E, name, ensures, requires=None):
     E2.declare_class("paramiko.transport.Transport", {
         "server_mode": "bool", "auth_handler": "opt[opaque:AuthH]", "initial_kex_done": "bool", "in_kex": "bool",
         "completion_event": "opt[opaque:Event]", "packetizer": "opaque:Pk", "clear_to_send_lock": "opaque:Lock",
-        "clear_to_send": "opaque:Event", "K": "opt[int]", "kex_engine": "opt[opaque:Kex]", "local_kex_init": "opt[bytes]",
-        "remote_kex_init": "opt[bytes]", "authenticated": "bool"})
+        "clear_to_send": "opaque:Gate", "K": "opt[int]", "kex_engine": "opt[opaque:Kex]", "local_kex_init": "opt[bytes]",
+        "remote_kex_init": "opt[bytes]", "authenticated": "bool", "_held_user_messages": "opaque:Held"})
+    E2.contract(T + "_send_message", argnames=["self", "data"], returns="none", modifies=[],
+                raises={"SSHException": "True"})
     E2.contract(T + "_activate_inbound", returns="none", raises={"SSHException": "True"}, modifies=[],
                 ghost={"inbound_switched": "True"})
     E2.contract(T + "is_authenticated", returns="bool", modifies=[])
@@ -429,8 +451,19 @@ def newkeys_variant(E, name, ensures, requires=None):
     E2.declare_ghost(need_answer="bool")
     E2.contract("Pk._initial_kex_done.setter", argnames=["self", "v"], returns="none")
     E2.contract("Event.set", argnames=["self"], returns="none")
+    # messages the transport thread could not send during the exchange (Transport._send_user_message holds them back) go out
+    # here, under the lock and before 'clear to send' is set: every one of them, each once
+    E2.declare_ghost(flushed="int", flushed_after_set="int", gate_open="bool")
+    E2.contract("Gate.set", argnames=["self"], returns="none", ghost={"gate_open": "True"}, modifies=[])
+    E2.contracts[T + "_send_message"]["ghost"] = {
+        "flushed": "ghost('flushed') + 1",
+        "flushed_after_set": "ghost('flushed_after_set') + (1 if ghost('gate_open') else 0)"}
     c = dict(params={"m": "opaque:Msg"}, returns="none", raises={"SSHException": "True"}, ensures=dict(ensures),
-             requires=dict(requires or {}))
+             requires=dict(requires or {}),
+             loops={0: dict(inv=["held(self.clear_to_send_lock)", "ghost('flushed') == old(ghost('flushed')) + local('_idx0', 0)",
+                                 "ghost('gate_open') == old(ghost('gate_open'))",
+                                 "implies(not old(ghost('gate_open')), ghost('flushed_after_set') == old(ghost('flushed_after_set')))"],
+                            havoc_ghosts=["flushed", "flushed_after_set"], vars={})})
     return (T + "_parse_newkeys", name, dict(c, **{
         "+replace": True, "+contracts": dict(E2.contracts), "+fields": {k: dict(d["fields"]) for k, d in E2.classdecl.items()},
-        "+engine": {"auto_opaque": True, "ghost_types": dict(E.ghost_types, **E2.ghost_types)}}))
+        "+engine": {"auto_opaque": True, "opaque_iter": {"Held": "Msg"}, "ghost_types": dict(E.ghost_types, **E2.ghost_types)}}))
